@@ -537,6 +537,12 @@ def callable_cfg(repo: Repo, fi: FuncInfo, e: ast.AST):
         def stmts(x):
             if isinstance(x, ast.IfExp):
                 return [ast.copy_location(ast.If(test=x.test, body=stmts(x.body), orelse=stmts(x.orelse)), x)]
+            if isinstance(x, ast.BoolOp) and len(x.values) >= 2:
+                # `a or b`: b runs only when a is falsy; `a and b`: only when a is truthy
+                rest = x.values[1] if len(x.values) == 2 else ast.copy_location(ast.BoolOp(op=x.op, values=x.values[1:]), x)
+                if isinstance(x.op, ast.Or):
+                    return [ast.copy_location(ast.If(test=x.values[0], body=[ast.copy_location(ast.Pass(), x)], orelse=stmts(rest)), x)]
+                return [ast.copy_location(ast.If(test=x.values[0], body=stmts(rest), orelse=[]), x)]
             return [ast.copy_location(ast.Expr(value=x), x)]
         fn = ast.FunctionDef(name="<lambda>", args=e.args, body=stmts(e.body), decorator_list=[], returns=None, type_comment=None, type_params=[])
         ast.copy_location(fn, e)
